@@ -50,7 +50,7 @@ func sceneModuleCall() {
 	ctx = vf.WithTx(ctx, tx, mi)
 	capAmt := vf.Amount("cap")
 	// the handler replaces providers, timeout, repetition and super mode by its own; what the message carries only has to be valid
-	msg := types.NewMsgCallService(Svc, []sdk.AccAddress{modProv}, consumer, InputOK, coins(capAmt), 1, false, false, 0, 0)
+	msg := types.NewMsgCallService(Svc, []sdk.AccAddress{modProv}, consumer, InputOK, coins(capAmt), 1, vf.Bool("m.super"), false, 0, 0)
 	vf.Assume(msg.ValidateBasic() == nil)
 	balC0 := vf.Amount("balConsumer")
 	vf.SetBalance(consumer, balC0)
@@ -92,7 +92,7 @@ func sceneModuleCall() {
 	stamped := req.ServiceFee.AmountOf(Denom)
 	chk("C07 C06 C02", vf.And(stamped.Equal(fee), stamped.LTE(capAmt)), "module-call-fee-is-the-price-within-the-cap")
 	if answer < 2 {
-		chk("C02 C05", paid.Equal(stamped), "consumer-pays-the-stamped-fee")
+		chk("C02 C05 C07", paid.Equal(stamped), "consumer-pays-the-stamped-fee")
 	} else {
 		after, _ := k.GetServiceBinding(ctx, Svc, modProv)
 		wantDep, _, wantAvail, _ := SlashRef(k, ctx, b, now)
